@@ -128,8 +128,18 @@ Definition stepk (s : st) (k : opk) : word * st :=
 Definition step (s : st) (op : word) : option (word * st) :=
   match decode_op op with Some k => Some (stepk s k) | None => None end.
 
-Definition init (cfg : word) : option st :=
+(* cfg = [stream window; connection window] or [stream window; connection window; side]
+   (side 0 = http2Server, 1 = http2Client: the driver runs the same operations through the
+   client's handleData/adjustWindow/updateWindow/updateFlowControl, which make the same calls;
+   the model does not depend on it) *)
+Definition cfg2 (cfg : word) : word :=
   match cfg with
+  | [l; cl; _] => [l; cl]
+  | _ => cfg
+  end.
+
+Definition init (cfg : word) : option st :=
+  match cfg2 cfg with
   | [l; cl] => Some (mkst (u32 l) 0 0 0 (u32 cl) 0 false (u32 l))
   | _ => None
   end.
@@ -168,13 +178,13 @@ Record led := mkled { adv : Z; rcvd : Z; cadv : Z; crcvd : Z; lim : Z; clim : Z;
                       sshrunk : bool; cdead : bool }.
 
 Definition cfg_ok (cfg : word) : bool :=
-  match cfg with
+  match cfg2 cfg with
   | [l; cl] => (1 <=? l) && (l <=? max_i32) && (1 <=? cl) && (cl <=? max_i32)
   | _ => false
   end.
 
 Definition linit (cfg : word) : led :=
-  match cfg with
+  match cfg2 cfg with
   | [l; cl] => mkled l 0 cl 0 l cl 0 0 0 false false false false false
   | _ => mkled 0 0 0 0 0 0 0 0 0 true false false false false
   end.
